@@ -268,6 +268,8 @@ impl Poll {
         drop(events);
 
         let now = Instant::now();
+        #[cfg(calloop_verif)]
+        let now = crate::verif::shift(now);
         let mut timers = self.timers.borrow_mut();
         while let Some((_, token)) = timers.next_expired(now) {
             poll_events.push(PollEvent {
@@ -279,6 +281,9 @@ impl Poll {
                 token,
             });
         }
+
+        #[cfg(calloop_verif)]
+        crate::verif::report_batch(&poll_events);
 
         Ok(poll_events)
     }
